@@ -241,6 +241,26 @@ fn sample_filesystem_used_bytes(_path: &Path) -> Option<u64> {
     None
 }
 
+/// True when `dir` contains a snapshot file or a WAL segment with at least one byte after the
+/// 4-byte header (a crash during the very first initialisation leaves at most an empty segment).
+fn data_dir_holds_persisted_state(dir: &std::path::Path) -> bool {
+    let Ok(entries) = std::fs::read_dir(dir) else {
+        return false;
+    };
+    entries.flatten().any(|entry| {
+        let name = entry.file_name().to_string_lossy().to_string();
+        if name.ends_with(".tmp") {
+            return false;
+        }
+        if name.starts_with("snapshot_") {
+            return true;
+        }
+        name.starts_with("wal_")
+            && name.ends_with(".wal")
+            && entry.metadata().map(|m| m.len() > 4).unwrap_or(false)
+    })
+}
+
 fn refresh_system_metrics(state: &ServerState) {
     if let Some(rss_bytes) = sample_process_memory_bytes() {
         state.metrics.set_memory_used(rss_bytes);
@@ -3573,6 +3593,20 @@ async fn main() -> anyhow::Result<()> {
     let data_dir_path = config.persistence.data_dir.clone();
     let manifest_path = data_dir_path.join("MANIFEST");
     let should_attempt_recovery = config.persistence.enable_recovery && manifest_path.exists();
+
+    // A data directory that holds snapshots or non-empty WAL segments but no MANIFEST has lost
+    // its MANIFEST; starting an empty database on top of it would silently drop every document.
+    if config.persistence.enable_recovery
+        && !manifest_path.exists()
+        && !config.persistence.allow_fresh_start_on_recovery_failure
+        && data_dir_holds_persisted_state(&data_dir_path)
+    {
+        anyhow::bail!(
+            "MANIFEST missing in {} but snapshot/WAL files are present; refusing to start with an \
+             empty database (restore the MANIFEST or set allow_fresh_start_on_recovery_failure)",
+            data_dir_path.display()
+        );
+    }
 
     let create_empty_engine =
         |cache_strategy: Box<dyn kyrodb_engine::CacheStrategy>,
